@@ -400,6 +400,9 @@ class Interp:
         self.calls = []  # (callee short, chain)
         self.notes = []
         self.loops = []  # loop summaries (for C08)
+        # loops unrolled over a compile-time sequence / with statically
+        # decided exits: (function qualname, line) -> largest trip count
+        self.static_loops = {}
         self.handled = []  # (ExcInfo, handler function) caught raises
         self.comps = []  # data-dependent comprehensions
         self.fresh = itertools.count(1)
@@ -958,6 +961,9 @@ class Interp:
         return self.flush_pending() + outs
 
     def st_Expr(self, st, state, frame):
+        if isinstance(st.value, ast.Yield) and \
+                getattr(frame, 'cm', None) is not None:
+            return self._cm_yield(st.value, state, frame)
         if isinstance(st.value, (ast.Yield, ast.YieldFrom)):
             self.do_yield(st.value, state, frame)
         else:
@@ -966,7 +972,19 @@ class Interp:
 
     def do_yield(self, node, state, frame):
         if isinstance(node, ast.YieldFrom):
-            raise Unsupported('yield from at ' + self.site(node))
+            src = self.eval(node.value, state, frame)
+            seq = None
+            if isinstance(src, Ref):
+                o = self.obj(state, src)
+                if o.kind == 'list' and not o.more:
+                    seq = list(o.items)
+            if seq is None:
+                seq = self.models.static_sequence(self, src, state)
+            if seq is None:
+                raise Unsupported('yield from a run-time iterable at ' +
+                                  self.site(node))
+            state.env['$yields'] = state.env.get('$yields', ()) + tuple(seq)
+            return
         v = self.eval(node.value, state, frame) if node.value else None
         state.env['$yields'] = state.env.get('$yields', ()) + (v,)
 
@@ -1085,6 +1103,14 @@ class Interp:
             return v
         if isinstance(v, Sym) and v.op == 'caught':
             return v.args[0]
+        if isinstance(v, Sym) and v.op == 'excinst':
+            # an exception object built earlier; when it comes from module
+            # or class scope every raise hands out the same mutable object
+            if isinstance(node, ast.Name) and node.id not in state.env or \
+                    isinstance(node, ast.Attribute):
+                self.effect('raise-shared-exception', ast.unparse(node),
+                            T.show(v)[:80], node)
+            return v.args[0]
         raise Unsupported('raise of non-exception value at ' +
                           self.site(node))
 
@@ -1193,12 +1219,17 @@ class Interp:
     def st_For(self, st, state, frame):
         it = self.eval(st.iter, state, frame)
         seq = self.models.static_sequence(self, it, state)
+        if seq is None and isinstance(it, Ref):
+            o_ = self.obj(state, it)
+            if o_.kind == 'list' and not o_.more:
+                return self._for_guarded(st, state, frame, list(o_.items))
         if seq is None:
             return self.run_loop(st, state, frame, it)
         outs = []
         cur = state
         breaks = []
         depth = len(state.kn.atoms)
+        self._note_static_loop(st, len(seq))
         for elem in seq:
             self.assign(st.target, elem, cur, frame)
             res = self.exec_block(st.body, cur, frame)
@@ -1207,6 +1238,51 @@ class Interp:
             if cur is None:
                 break
         return self._loop_finish(st, cur, breaks, outs, frame, depth)
+
+    def _for_guarded(self, st, state, frame, items):
+        """for over a compile-time list some of whose elements are present
+        only under a guard (opt): the body runs under the guard, the
+        iteration is skipped otherwise."""
+        flat_ = []
+        for x in items:
+            if isinstance(x, Sym) and x.op == 'opt':
+                g, a, b = x.args
+                flat_.extend((g, e) for e in a)
+                flat_.extend((T.not_(g), e) for e in b)
+            else:
+                flat_.append((None, x))
+        outs = []
+        cur = state
+        breaks = []
+        depth = len(state.kn.atoms)
+        self._note_static_loop(st, len(flat_))
+        for g, elem in flat_:
+            if g is None:
+                self.assign(st.target, elem, cur, frame)
+                res = self.exec_block(st.body, cur, frame)
+            else:
+                d = self.decide(g, cur)
+                if d is False:
+                    continue
+                s_t = cur if d is True else cur.fork()
+                res = []
+                if d is None:
+                    # absent element: the iteration does not happen
+                    if cur.kn.assume(T.not_(g)):
+                        res.append(Outcome('normal', cur))
+                if s_t.kn.assume(g):
+                    self.assign(st.target, elem, s_t, frame)
+                    res = self.exec_block(st.body, s_t, frame) + res
+            cur, br = self._loop_step(res, outs, depth)
+            breaks.extend(br)
+            if cur is None:
+                break
+        return self._loop_finish(st, cur, breaks, outs, frame, depth)
+
+    def _note_static_loop(self, st, n):
+        k = (self.cur_func.qualname if self.cur_func is not None else '?',
+             st.lineno)
+        self.static_loops[k] = max(self.static_loops.get(k, 0), n)
 
     def _loop_step(self, res, outs, depth):
         """Split the outcomes of one iteration.  Returns (next_state or None,
@@ -1281,6 +1357,7 @@ class Interp:
                     static_ok = False
                     break
             if static_ok:
+                self._note_static_loop(st, n)
                 outs.extend(tmp_outs)
                 if breaks and cur is not None and not breaks[-1:] == []:
                     pass
@@ -1465,12 +1542,124 @@ class Interp:
         return [Outcome('continue', state)]
 
     def st_With(self, st, state, frame):
+        if len(st.items) == 1 and isinstance(st.items[0].context_expr,
+                                             ast.Call):
+            r = self._with_contextmanager(st, state, frame)
+            if r is not None:
+                return r
         for item in st.items:
             v = self.eval(item.context_expr, state, frame)
             if item.optional_vars is not None:
                 self.assign(item.optional_vars, Sym('enter', _as_term(v)),
                             state, frame)
         return self.exec_block(st.body, state, frame)
+
+    def _with_contextmanager(self, st, state, frame):
+        """`with f(...):` where f is a generator function decorated with
+        contextlib.contextmanager: the generator body is interpreted with
+        the with-body run at its single yield, so the generator's
+        try/except/finally around the yield see the body's outcomes."""
+        item = st.items[0]
+        call = item.context_expr
+        try:
+            tgt = self.prog.resolve_static(frame.module, call.func,
+                                           frame.module)
+        except Exception:
+            return None
+        fi = tgt if isinstance(tgt, FuncInfo) else None
+        if fi is None or not fi.is_generator or \
+                not getattr(fi.node, 'decorator_list', None):
+            return None
+        from . import models as _m
+        if len(fi.node.decorator_list) != 1 or _m.decorator_path(
+                self.prog, fi.module, fi.node.decorator_list[0]) != \
+                'contextlib.contextmanager':
+            return None
+        yields = [n for n in _walk_own_nodes(fi.node)
+                  if isinstance(n, (ast.Yield, ast.YieldFrom))]
+        if len(yields) != 1 or isinstance(yields[0], ast.YieldFrom):
+            raise Unsupported('context manager %s with %d yields' %
+                              (fi.short, len(yields)))
+        args = [self.eval(a, state, frame) for a in call.args]
+        if any(isinstance(a, ast.Starred) for a in call.args) or any(
+                k.arg is None for k in call.keywords):
+            raise Unsupported('star arguments to a context manager at ' +
+                              self.site(call))
+        kwargs = {k.arg: self.eval(k.value, state, frame)
+                  for k in call.keywords}
+        caller_env = state.env
+        env = self.bind_args(fi, args, kwargs, state, call, None)
+        env['$cm_caller_env'] = caller_env
+        gframe = Frame(self, fi, fi.module, fi.owner, env)
+        gframe.cm = {'body': st.body, 'frame': frame,
+                     'vars': item.optional_vars,
+                     'tail': _yield_is_tail(fi.node.body),
+                     'saved': (frame.module, self.cur_func)}
+        saved = (self.cur_module, self.cur_func)
+        self.stack.append((fi, self.site(call)))
+        Effect._seq[0] += 1
+        self.calls.append((fi.short, self.chain(), Effect._seq[0],
+                           len(state.kn.atoms)))
+        self.cur_module, self.cur_func = fi.module, fi
+        try:
+            outs = self.exec_block(fi.node.body, state.with_env(env),
+                                   gframe)
+        finally:
+            self.stack.pop()
+            self.cur_module, self.cur_func = saved
+        res = []
+        for o in outs:
+            cenv = o.state.env.get('$cm_caller_env', caller_env)
+            pend = o.state.env.get('$cm_exit')
+            o.state.env = cenv
+            if o.kind == 'raise':
+                res.append(o)
+            elif pend is not None:
+                res.append(Outcome(pend[0], o.state, value=pend[1]))
+            elif o.kind in ('normal', 'return'):
+                res.append(Outcome('normal', o.state))
+            else:
+                raise Unsupported('%s out of a context manager generator' %
+                                  o.kind)
+        return res
+
+    def _cm_yield(self, node, state, frame):
+        """The yield of an inlined context manager: run the with-body in
+        the caller's frame."""
+        cm = frame.cm
+        v = self.eval(node.value, state, frame) if node.value else None
+        genv = state.env
+        cst = state.with_env(genv.get('$cm_caller_env', {}))
+        if cm['vars'] is not None:
+            self.assign(cm['vars'], v, cst, cm['frame'])
+        saved = (self.cur_module, self.cur_func)
+        self.cur_module, self.cur_func = cm['saved']
+        self.stack.append((cm['frame'].func, None)) \
+            if cm['frame'].func is not None else None
+        try:
+            outs = self.flush_pending() + self.exec_block(
+                cm['body'], cst, cm['frame'])
+        finally:
+            if cm['frame'].func is not None:
+                self.stack.pop()
+            self.cur_module, self.cur_func = saved
+        res = []
+        for o in outs:
+            nenv = dict(genv)
+            nenv['$cm_caller_env'] = o.state.env
+            o.state.env = nenv
+            if o.kind in ('normal', 'raise'):
+                res.append(o)
+            else:
+                # return / break / continue leave the with statement after
+                # the generator has been resumed without an exception
+                if not cm['tail']:
+                    raise Unsupported(
+                        '%s out of a with-body whose context manager has '
+                        'code after its yield' % o.kind)
+                nenv['$cm_exit'] = (o.kind, o.value)
+                res.append(Outcome('normal', o.state))
+        return res
 
     def st_Try(self, st, state, frame):
         depth = len(state.kn.atoms)
@@ -1977,7 +2166,10 @@ class Interp:
                     results.append((self.eval(elt[0], state, frame),
                                     self.eval(elt[1], state, frame)))
                 else:
-                    results.append(self.eval(elt, state, frame))
+                    v_ = self.eval(elt, state, frame)
+                    if guards:
+                        v_ = Sym('opt', T.and_(*guards), (_as_term(v_),), ())
+                    results.append(v_)
                 return
             g = node.generators[gi]
             it = self.eval(g.iter, state, frame)
@@ -1988,6 +2180,7 @@ class Interp:
             for e in seq:
                 self.assign(g.target, e, state, frame)
                 okk = True
+                pushed = 0
                 for cnd in g.ifs:
                     c = self.eval_cond(cnd, state, frame)
                     d = self.decide(c, state)
@@ -1995,9 +2188,21 @@ class Interp:
                         okk = False
                         break
                     if d is None:
-                        more[0] = True
+                        if guardable and not more[0]:
+                            guards.append(c)
+                            pushed += 1
+                        else:
+                            more[0] = True
                 if okk:
                     rec(gi + 1)
+                del guards[len(guards) - pushed:]
+        guards = []
+        # a filter that cannot be decided keeps the element under its guard
+        # (list / generator comprehensions over a compile-time iterable)
+        guardable = not isinstance(elt, tuple) and \
+            isinstance(node, (ast.ListComp, ast.GeneratorExp)) and \
+            (not isinstance(node, ast.GeneratorExp) or
+             _genexp_stable(node, frame))
         rec(0)
         # comprehension variables do not leak
         for k in list(state.env):
@@ -2097,8 +2302,70 @@ class Frame:
         self.owner = owner
         self.globals = set()
         self.handling = []
+        self.cm = None
         self.locals = _assigned_names(func.node.body) if func is not None \
             and not isinstance(func.node, ast.Lambda) else set()
+
+
+def _walk_own_nodes(fnode):
+    """Nodes of a function body, not descending into nested functions,
+    lambdas or classes."""
+    todo = list(fnode.body)
+    while todo:
+        n = todo.pop()
+        yield n
+        for c in ast.iter_child_nodes(n):
+            if isinstance(c, (ast.FunctionDef, ast.AsyncFunctionDef,
+                              ast.Lambda, ast.ClassDef)):
+                continue
+            todo.append(c)
+
+
+def _genexp_stable(node, frame):
+    """A generator expression is evaluated lazily; treating its filter as
+    evaluated where it is written is exact when no free name of it is
+    rebound elsewhere in the enclosing function."""
+    if frame is None or frame.func is None or \
+            isinstance(frame.func.node, ast.Lambda):
+        return False
+    targets = set()
+    for g in node.generators:
+        for n in ast.walk(g.target):
+            if isinstance(n, ast.Name):
+                targets.add(n.id)
+    free = {n.id for n in ast.walk(node)
+            if isinstance(n, ast.Name) and isinstance(n.ctx, ast.Load)} \
+        - targets
+    fn = frame.func.node
+    a = fn.args
+    params = {x.arg for x in a.posonlyargs + a.args + a.kwonlyargs}
+    stores = {}
+    inside = {id(n) for n in ast.walk(node)}
+    for n in ast.walk(fn):
+        if isinstance(n, ast.Name) and isinstance(n.ctx, (ast.Store,
+                                                          ast.Del)) \
+                and id(n) not in inside:
+            stores[n.id] = stores.get(n.id, 0) + 1
+    for name in free:
+        k = stores.get(name, 0) + (1 if name in params else 0)
+        if k > 1:
+            return False
+    return True
+
+
+def _yield_is_tail(body):
+    """The yield statement is the last thing executed on the normal path
+    (only try wrappers around it, nothing after)."""
+    if not body:
+        return False
+    last = body[-1]
+    if isinstance(last, ast.Expr) and isinstance(last.value, ast.Yield):
+        return True
+    if isinstance(last, ast.Try) and not last.orelse:
+        return _yield_is_tail(last.body)
+    if isinstance(last, ast.With):
+        return _yield_is_tail(last.body)
+    return False
 
 
 class _NoReturn(Exception):
